@@ -23,6 +23,7 @@ EXPLANATION = (
     "exhaustion arm. A success carrying a bare exception object, an unguarded second fire, or an exit that forgets "
     "Deferreds each break the property for a concrete schedule (witness in each report)."
 )
+SHARED = [('C09', ['R2'], 'the acknowledged request carries exactly the submitted messages, keys and order')]
 ASSUMPTIONS = [
     "Twisted: Deferred.callback(x) with x not a Failure is a success; callback(Failure) behaves as errback",
     "KafkaClient.send_produce_request fires with a list of ProduceResponse (possibly empty/None with acks=0) or fails",
